@@ -126,6 +126,7 @@ def step (w : World) (l : String) : World × String :=
     let r : HttpReq := ⟨m, strOfHex np, cl.toInt!, bodyOf tree⟩
     (w, showOutcome (handle w backend (.http r)))
   | ["raw", _] => (w, "nopanic")
+  | ["conc", _] => (w, "nopanic")   -- concurrent clients: each request is handled as if alone (handlers share no mutable state)
   | ["g", "GetVersion"] => (w, showOutcome (handle w backend .grpcGetVersion))
   | ["g", "GetBlock", s] => (w, showOutcome (handle w backend (.grpcGetBlock s.toNat!)))
   | ["g", "GetBlockTime", s] => (w, showOutcome (handle w backend (.grpcGetBlockTime s.toNat!)))
